@@ -22,6 +22,13 @@ def generate(rng, tier, focus):
                 "ops": []}
     world = W.gen_world(rng, tier)
     n_sp = len(world["species"])
+    # the documented manual route: a species gets an end molecule of ANOTHER moleculetype name (POPC mapped onto VTE), which
+    # only the attribute path accepts
+    renamed = set()
+    for s_ in range(n_sp):
+        if rng.random() < 0.12:
+            world["species"][s_]["end"]["name"] = world["species"][s_]["name"] + "X"
+            renamed.add(s_)
     subset = [s for s in range(n_sp) if rng.random() < 0.75]
     rng.shuffle(subset)
     ops = []
@@ -34,7 +41,8 @@ def generate(rng, tier, focus):
     while pending:
         k = rng.randint(1, len(pending))
         for s in pending[:k]:
-            ops.append({"op": "add_end", "species": s, "via": rng.choice(["files", "files", "object", "attribute"])})
+            ops.append({"op": "add_end", "species": s,
+                        "via": "attribute" if s in renamed else rng.choice(["files", "files", "object", "attribute"])})
             attached.add(s)
         pending = pending[k:]
         if rng.random() < 0.15 and attached:
@@ -155,6 +163,8 @@ def execute(trace, ctx):
                     elif op["via"] == "attribute":
                         manager.molecule_correspondence[species[s]["name"]].end = mol      # as the docstring and the CLI do
                         ctx.probe("end_attached_through_attribute")
+                        if mol.name != species[s]["name"]:
+                            ctx.probe("end_molecule_of_another_name")
                     else:
                         manager.add_end_molecule(mol)
                     attached[s] = True
